@@ -80,19 +80,19 @@ var ErrInjected = errors.New("journalfs: injected I/O error")
 
 // Op is one journal record.
 type Op struct {
-	Seq    int    `json:"seq"`              // position in the journal
-	N      int    `json:"n"`                // ordinal among mutating ops (-1 otherwise)
-	Kind   Kind   `json:"kind"`             //
-	Path   string `json:"path,omitempty"`   // file / directory / old name
-	Path2  string `json:"path2,omitempty"`  // new name (rename, link, reuse)
-	Handle int    `json:"h,omitempty"`      // handle id (>0) for handle ops
-	Off    int64  `json:"off,omitempty"`    // writeat offset
-	Data   []byte `json:"data,omitempty"`   // written bytes
-	Dirs   []string `json:"dirs,omitempty"` // directories whose entries changed
-	Failed bool   `json:"failed,omitempty"` // returned an error: not replayed
-	Inject bool   `json:"inject,omitempty"` // the error was injected
-	Label  string `json:"label,omitempty"`  // mark label
-	Mark   int    `json:"mark,omitempty"`   // mark ordinal (1-based)
+	Seq    int      `json:"seq"`              // position in the journal
+	N      int      `json:"n"`                // ordinal among mutating ops (-1 otherwise)
+	Kind   Kind     `json:"kind"`             //
+	Path   string   `json:"path,omitempty"`   // file / directory / old name
+	Path2  string   `json:"path2,omitempty"`  // new name (rename, link, reuse)
+	Handle int      `json:"h,omitempty"`      // handle id (>0) for handle ops
+	Off    int64    `json:"off,omitempty"`    // writeat offset
+	Data   []byte   `json:"data,omitempty"`   // written bytes
+	Dirs   []string `json:"dirs,omitempty"`   // directories whose entries changed
+	Failed bool     `json:"failed,omitempty"` // returned an error: not replayed
+	Inject bool     `json:"inject,omitempty"` // the error was injected
+	Label  string   `json:"label,omitempty"`  // mark label
+	Mark   int      `json:"mark,omitempty"`   // mark ordinal (1-based)
 }
 
 // String renders an op without its data.
